@@ -42,6 +42,7 @@ def run_behaviour(bid, beh, seed, observe=None, expose=None):
     if style != "plain":              # one id style for the whole behaviour (see render.py)
         f = id_style_map(style)
         beh = restyle(beh, f)
+        g.idf = f
     table = {}
     objs = {}
     events = []
